@@ -391,6 +391,15 @@ def run_case(case, rec, mon):
         hist.append(p, step + 1)
     q = p.copy()
     want = state(p)
+    # the copy is a parameter set of its own: updating IT (as the optimiser does with its private copy) leaves the original
+    # untouched, and the copy's expressions follow the copy's values (judged by the setter's contract on q)
+    labels_q, x_q, _, _ = q.get_label_value_and_bounds_arrays(exclude_non_vary=True)
+    if len(labels_q):
+        q.set_from_label_and_value_arrays(labels_q, x_q + 0.21)
+        rec.count("copies_updated")
+        if state(p) != want and not all(X.close(want[k], state(p)[k]) for k in want):
+            rec.violation("copy-not-independent", mon.ctx, f"updating a copy changed the original: {want} -> {state(p)}")
+        q = p.copy()
     p.set_from_history(hist, 0)
     p.set_from_history(hist, hist.number_of_records - 1)
     got = state(p)
